@@ -131,6 +131,7 @@ func gGenBlock(tag string, nfacts, ruleMode, checkMode int) gBlock {
 	var b gBlock
 	if tag == "auth" {
 		gNames = 0 // start of a scenario (the native replay runs several cases in one process)
+		gVarName = "x"
 	}
 	for i := 0; i < nfacts; i++ {
 		b.facts = append(b.facts, gConstAtom(tag+".f"))
@@ -155,9 +156,12 @@ func gGenPolicies(tag string, n, mode int) []gPolicy {
 
 // ---- conversion to the library's builder types
 
+// gVarName is the name of the single rule variable (C12 renames it consistently).
+var gVarName = "x"
+
 func (a gAtom) pred() Predicate {
 	if a.isVar {
-		return Predicate{Name: a.name, IDs: []Term{Variable("x")}}
+		return Predicate{Name: a.name, IDs: []Term{Variable(gVarName)}}
 	}
 	return Predicate{Name: a.name, IDs: []Term{Integer(a.c)}}
 }
@@ -173,7 +177,7 @@ func (r gRule) rule(isQuery bool) Rule {
 		out.Body = append(out.Body, b.pred())
 	}
 	if r.hasExpr {
-		out.Expressions = []Expression{{Value{Variable("x")}, Value{Integer(r.e)}, BinaryLessThan}}
+		out.Expressions = []Expression{{Value{Variable(gVarName)}, Value{Integer(r.e)}, BinaryLessThan}}
 	}
 	return out
 }
